@@ -1,0 +1,30 @@
+//go:build verif
+
+package predicate
+
+// Contracts for the gowp verifier (/verif). Comment-only file.
+
+//@ props C15 C08
+//@ func Parse
+//@   opt terminates
+//@   ensures[value-or-error] (result0 != nil && result1 == nil) || (result0 == nil && result1 != nil)
+
+//@ func NewImmutable
+//@   ensures[value-or-error] (result0 != nil && result1 == nil) || (result0 == nil && result1 != nil)
+//@   ensures[accepts] result0 != nil <==> len(id) > 0
+//@   ensures[value] result0 != nil ==> fresh(result0) && result0.id == id && result0.anchor == nil
+
+//@ func NewTemporal
+//@   ensures[value-or-error] (result0 != nil && result1 == nil) || (result0 == nil && result1 != nil)
+//@   ensures[accepts] result0 != nil <==> len(id) > 0
+//@   ensures[value] result0 != nil ==> fresh(result0) && result0.id == id && result0.anchor != nil && deref(result0.anchor) == t
+
+//@ func (p *Predicate) Type
+//@   requires p != nil
+//@   ensures[kind] (result == Immutable) <==> p.anchor == nil
+//@   ensures[kind2] (result == Temporal) <==> p.anchor != nil
+
+//@ func (p *Predicate) TimeAnchor
+//@   requires p != nil
+//@   ensures[value-or-error] (result0 != nil && result1 == nil) || (result0 == nil && result1 != nil)
+//@   ensures[value] result0 == p.anchor
